@@ -2,17 +2,19 @@
    reader/logql/logql_transpiler_v2/clickhouse_planner/planner_parser_regexp.go):
 
      regexParserDesc (lexer.MustSimple: at every position the FIRST rule that matches wins)
-        OBrackQ  \(\?P<        OBrack  \(        CBrack  \)        CCBrack  >
+        OBrackQ  \(\?P<        OBrackN  \(\?        OBrack  \(        CBrack  \)        CCBrack  >
         Ident    [a-zA-Z_][0-9a-zA-Z_]*          Char    \\.|.      (`.` does not match a line feed)
      regexAST   = regexPart+
-     regexPart  = (Char|CCBrack|Ident)+  |  OBrackQ brackPart CBrack  |  OBrack regexAST CBrack
+     regexPart  = (Char|CCBrack|Ident)+  |  OBrackQ brackPart CBrack  |  OBrackN regexAST CBrack  |  OBrack regexAST CBrack
      brackPart  = Ident CCBrack regexAST?
+   (OBrackN / NonCapPart since the repair regexp-noncapturing-group: `(?:x)`, `(?i)` open no capture group; they were read as
+   plain groups and got a name slot, so the names no longer lined up with the groups RE2 extracts.)
 
    regexAST.String() prints the expression that is sent to ClickHouse (every `(?P<name>` becomes `(`);
    regexAST.collectGroupNames(nil) lists the label names the capture groups are paired with ("" for an unnamed group).
    The grammar is LL(1) (the alternatives of regexPart start with different tokens), so participle's parse is the
-   recursive descent below; a failure anywhere is an error of Process (no SQL). `(?P<name>)` (no Tail) makes both methods
-   dereference the nil Tail: the request panics - modelled as a failure as well.
+   recursive descent below; a failure anywhere is an error of Process (no SQL). `(?P<name>)` has no Tail: it is sent as `()`
+   (both methods dereferenced the nil Tail and the request panicked before the same repair).
 
    The SPEC side (what "capture group i" means for the text): tok_names / tok_sent read the token list from left to
    right - group i is the i-th opening token (RE2 and extractAllGroupsHorizontal number capture groups by their opening
@@ -23,7 +25,7 @@ From Qryn Require Import lib.Strs.
 Import ListNotations.
 Open Scope string_scope.
 
-Inductive rtok := TOBrackQ | TOBrack | TCBrack | TCCBrack | TIdent (s : string) | TChar (s : string).
+Inductive rtok := TOBrackQ | TOBrackN | TOBrack | TCBrack | TCCBrack | TIdent (s : string) | TChar (s : string).
 
 Definition is_ident_start (c : ascii) : bool := is_lower c || is_upper c || Ascii.eqb c "_".
 Definition is_ident_char (c : ascii) : bool := is_ident_start c || is_digit c.
@@ -48,6 +50,7 @@ Fixpoint lex (fuel : nat) (s : string) : option (list rtok) :=
     | String c r =>
       let cons (t : rtok) (rest : string) := match lex f rest with Some ts => Some (t :: ts) | None => None end in
       if prefixb "(?P<" s then cons TOBrackQ (drop_s 4 s)
+      else if prefixb "(?" s then cons TOBrackN (drop_s 2 s)
       else if Ascii.eqb c "(" then cons TOBrack r
       else if Ascii.eqb c ")" then cons TCBrack r
       else if Ascii.eqb c ">" then cons TCCBrack r
@@ -67,6 +70,7 @@ Definition lex_re (s : string) : option (list rtok) := lex (String.length s) s.
 Inductive rpart :=
  | RSimple (s : string)                           (* SimplePart: the texts of its tokens, concatenated *)
  | RNamed (name : string) (tail : list rpart)     (* NamedBrackPart; tail = [] is the nil Tail *)
+ | RNonCap (body : list rpart)                    (* NonCapPart *)
  | RBrack (body : list rpart).                    (* BrackPart *)
 
 Definition simple_tok (t : rtok) : option string :=
@@ -96,6 +100,15 @@ Fixpoint parts (fuel : nat) (ts : list rtok) : option (list rpart * list rtok) :
         end
       | _ => None
       end
+    | TOBrackN :: r =>
+      match parts f r with
+      | Some (body, TCBrack :: r2) =>
+        match body with
+        | [] => None
+        | _ => match parts f r2 with Some (ps, r3) => Some (RNonCap body :: ps, r3) | None => None end
+        end
+      | _ => None
+      end
     | TOBrackQ :: TIdent name :: TCCBrack :: r =>
       match parts f r with
       | Some (tail, TCBrack :: r2) =>
@@ -119,6 +132,7 @@ Fixpoint part_string (p : rpart) : string :=
   match p with
   | RSimple s => s
   | RNamed _ tail => "(" ++ (fix go (l : list rpart) : string := match l with [] => "" | x :: r => part_string x ++ go r end) tail ++ ")"
+  | RNonCap body => "(?" ++ (fix go (l : list rpart) : string := match l with [] => "" | x :: r => part_string x ++ go r end) body ++ ")"
   | RBrack body => "(" ++ (fix go (l : list rpart) : string := match l with [] => "" | x :: r => part_string x ++ go r end) body ++ ")"
   end.
 Fixpoint ast_string (l : list rpart) : string :=
@@ -131,6 +145,9 @@ Fixpoint part_names (p : rpart) (init : list string) : list string :=
   | RNamed name tail =>
     (fix go (l : list rpart) (acc : list string) : list string :=
        match l with [] => acc | x :: r => go r (part_names x acc) end) tail (init ++ [name])%list
+  | RNonCap body =>
+    (fix go (l : list rpart) (acc : list string) : list string :=
+       match l with [] => acc | x :: r => go r (part_names x acc) end) body init
   | RBrack body =>
     (fix go (l : list rpart) (acc : list string) : list string :=
        match l with [] => acc | x :: r => go r (part_names x acc) end) body (init ++ [""])%list
@@ -138,24 +155,12 @@ Fixpoint part_names (p : rpart) (init : list string) : list string :=
 Fixpoint ast_names (l : list rpart) (init : list string) : list string :=
   match l with [] => init | x :: r => ast_names r (part_names x init) end.
 
-(* a named group without Tail: String() and collectGroupNames dereference nil *)
-Fixpoint part_nil_tail (p : rpart) : bool :=
-  match p with
-  | RSimple _ => false
-  | RNamed _ tail =>
-    match tail with [] => true | _ => false end
-    || (fix go (l : list rpart) : bool := match l with [] => false | x :: r => part_nil_tail x || go r end) tail
-  | RBrack body => (fix go (l : list rpart) : bool := match l with [] => false | x :: r => part_nil_tail x || go r end) body
-  end.
-Fixpoint ast_nil_tail (l : list rpart) : bool :=
-  match l with [] => false | x :: r => part_nil_tail x || ast_nil_tail r end.
-
-(* ParserPlanner.regexp: parseRe(Vals[0]), then (ast.String(), ast.collectGroupNames(nil)); None = error or panic *)
+(* ParserPlanner.regexp: parseRe(Vals[0]), then (ast.String(), ast.collectGroupNames(nil)); None = error *)
 Definition re_plan (re : string) : option (string * list string) :=
   match lex_re re with
   | Some ts =>
     match parse_toks ts with
-    | Some ast => if ast_nil_tail ast then None else Some (ast_string ast, ast_names ast [])
+    | Some ast => Some (ast_string ast, ast_names ast [])
     | None => None
     end
   | None => None
@@ -164,7 +169,7 @@ Definition re_plan (re : string) : option (string * list string) :=
 (* ---------- the spec side: groups by opening token ---------- *)
 Definition tok_text (t : rtok) : string :=
   match t with
-  | TOBrackQ => "(?P<" | TOBrack => "(" | TCBrack => ")" | TCCBrack => ">" | TIdent s | TChar s => s
+  | TOBrackQ => "(?P<" | TOBrackN => "(?" | TOBrack => "(" | TCBrack => ")" | TCCBrack => ">" | TIdent s | TChar s => s
   end.
 (* the label name of every capture group, in the order of the opening parentheses *)
 Fixpoint tok_names (ts : list rtok) : list string :=
@@ -176,7 +181,7 @@ Fixpoint tok_names (ts : list rtok) : list string :=
   | _ :: r => tok_names r
   | [] => []
   end.
-(* the text with every `(?P<name>` replaced by `(`: the same groups, opened in the same order *)
+(* the text with every `(?P<name>` replaced by `(`: the same groups, opened in the same order (`(?` opens none) *)
 Fixpoint tok_sent (ts : list rtok) : string :=
   match ts with
   | TOBrackQ :: TIdent _ :: TCCBrack :: r => "(" ++ tok_sent r
